@@ -15,31 +15,43 @@ from .c16 import reachable_leaves, truth_at
 TRUE_ = Const(True)
 
 ID = 'C20'
-TECHNIQUE = ('abstract evaluation of each look-up to a guarded normal form: the query predicate must normalise to '
-             '`key - query >= 0`, the search must be an in-order scan or bisect_left(wrapper, True) / '
-             'bisect_right(wrapper, False) over that predicate with both re-checks, the tie and deviation tests must '
-             'be non-strict; ordering enumeration of the sentinel guards; inventory of unchecked subscripts; the apex '
-             'bisection by inductive invariants in a linear-constraint domain (engine F)')
+TECHNIQUE = ('the searches by inductive invariants in a linear-constraint domain (engine F: Houdini '
+             'inference, Fourier-Motzkin refutation, counterexamples from finite families) - '
+             'index_at_distance, the first-true search behind the helpers with the wrapper predicate '
+             'abstracted as key[i] >= q over a non-decreasing key, the nearest search, the apex bisection; '
+             'the wiring of the helper chain by abstract evaluation through recorders (engine D); ordering '
+             'enumeration / sampling of the sentinel guards and of the deviation test; inventory of unchecked'
+             ' subscripts')
 DECIDED = [
-    'R1 index_at_distance, whatever its shape (generator scan, loop, bisection over the row distances), returns for every '
-    'trajectory length the index of the first row with distance >= the query and -1 exactly when the last row is short '
-    'of it, with every index in range (engine F: proof from inferred invariants / the exact meaning of the scan, '
-    'counterexamples from a finite family); the helper '
-    'predicates are `distance in the caller\'s unit >= query` and `time - query >= 0`; BisectWrapper exposes the '
-    'predicate of the element; the search is bisect_left(.., True, 0, len) (or bisect_right(.., False, ..)) re-checked '
-    'for idx >= len and for a false predicate; nearest-time compares neighbours with <= (earlier row wins ties) and the '
-    'deviation with <=',
+    'R1 index_at_distance, whatever its shape (generator scan, loop, bisection over the row distances), '
+    'returns for every trajectory length the index of the first row with distance >= the query and -1 exactly'
+    ' when the last row is short of it, with every index in range (engine F: proof from inferred invariants /'
+    ' the exact meaning of the scan, counterexamples from a finite family); bisect_for_monotonic_condition, '
+    'whatever its shape (library bisect, a hand-written lower bound, a scan), returns for every length the '
+    'first index whose (monotone) predicate holds and -1 when none does (engine F, the wrapper read as key[i]'
+    ' >= q); BisectWrapper[i] = check_condition(i) = predicate(array[i]) and len = len(array), '
+    'find_first_index... hands (array, BisectWrapper(array, predicate)) to the search and returns the index '
+    "found, the distance / time helpers search shot.trajectory with `distance in the caller's unit >= query` "
+    '/ `time >= query` and return the index found (engine D through recorders: a lambda, a named function or '
+    'attrgetter are the same); the nearest search returns for every length >= 1 an index in range such that '
+    'no neighbour is nearer to the target, the earlier row on ties, and -1 on an empty sequence (engine F; '
+    'local optimality on a sorted sequence is global); the deviation test accepts a row exactly at the '
+    'allowed deviation on either side, rejects one beyond it (also for a zero allowance) and passes the -1 of'
+    ' an empty sequence on (sampling of the outcome tree)',
     'R2 a -1 result is tested before any use as a subscript: get_at_distance raises ArithmeticError, '
     'find_time_for_distance_in_shot returns NaN; no call site subscripts an unchecked look-up result',
-    'R3 the apex helper hands the whole trajectory to its search, and the search - for every length - returns the first '
-    'row that is not lower than its successor of a single-peaked sequence (the highest row), with every index in '
-    'range: proved from branch conditions and Houdini-inferred loop invariants by Fourier-Motzkin refutation (engine '
-    'F, the rising-at-i predicate abstracted as a derived ascending sequence); counterexamples (wrong row, index out '
-    'of range, non-termination) from a finite family of lengths and apex positions',
+    'R3 the apex helper hands the whole trajectory to its search, and the search - for every length - returns'
+    ' the first row that is not lower than its successor of a single-peaked sequence (the highest row), with '
+    'every index in range: proved from branch conditions and Houdini-inferred loop invariants by Fourier-'
+    'Motzkin refutation (engine F, the rising-at-i predicate abstracted as a derived ascending sequence); '
+    'counterexamples (wrong row, index out of range, non-termination) from a finite family of lengths and '
+    'apex positions',
 ]
-NOT_DECIDED = ['"exactly what a sequential scan finds" on arbitrary data: for non-decreasing keys it '
-               'follows from the documented contract of bisect over a False..True sequence, which is trusted, not '
-               'analysed']
+NOT_DECIDED = [
+    '"exactly what a sequential scan finds" on arbitrary data: for non-decreasing keys the library bisect is '
+    'read by its documented contract (first position whose element is not below the target), which is '
+    'trusted, not analysed; hand-written searches are proved',
+]
 
 INDEX_FUNCS = {'index_at_distance', 'find_index_of_point_for_distance', 'find_index_for_time_point',
                'find_first_index_satisfying_monotonic_condition', 'bisect_for_monotonic_condition',
